@@ -2,6 +2,7 @@ package fio
 
 import (
 	"fmt"
+	"github.com/XiXi-2024/xixi-kv/verifhook"
 	"github.com/edsrzf/mmap-go"
 	"io"
 	"os"
@@ -22,6 +23,7 @@ type MMap struct {
 }
 
 func NewMMap(fileName string) (*MMap, error) {
+	verifhook.IO("open", fileName, 0)
 	fd, err := os.OpenFile(fileName, os.O_CREATE|os.O_RDWR, DataFilePerm)
 	if err != nil {
 		return nil, err
@@ -68,6 +70,7 @@ func (m *MMap) Read(b []byte, offset int64) (int, error) {
 }
 
 func (m *MMap) Write(b []byte) (int, error) {
+	verifhook.IO("write", m.file.Name(), int64(len(b)))
 	if err := m.remap(m.virtualSize, len(b)); err != nil {
 		return 0, err
 	}
@@ -77,10 +80,12 @@ func (m *MMap) Write(b []byte) (int, error) {
 }
 
 func (m *MMap) Sync() error {
+	verifhook.IO("sync", m.file.Name(), 0)
 	return m.activeMap.Flush()
 }
 
 func (m *MMap) Close() error {
+	verifhook.IO("close", m.file.Name(), m.virtualSize)
 	if err := m.activeMap.Flush(); err != nil {
 		return err
 	}
@@ -98,6 +103,7 @@ func (m *MMap) Size() (int64, error) {
 }
 
 func (m *MMap) ResetFileSize() error {
+	verifhook.IO("truncate", m.file.Name(), m.virtualSize)
 	return m.file.Truncate(m.virtualSize)
 }
 
@@ -113,6 +119,7 @@ func (m *MMap) remap(newBase int64, dataSize int) error {
 
 	// 如果新映射区域超过设置的文件大小, 则进行调整
 	if info, _ := m.file.Stat(); info.Size() < m.endOff {
+		verifhook.IO("extend", m.file.Name(), m.endOff)
 		if err := m.file.Truncate(m.endOff); err != nil {
 			return fmt.Errorf("truncate failed: %v", err)
 		}
